@@ -15,7 +15,22 @@ SEQ_ASSUME = ["calculators depend on (key, value, current duration) only; creati
               "same-goroutine executor that runs a submitted task after the submitting operation returned",
               "eviction choices are inputs: automatic removals are taken from the implementation's deletion events and checked for legality"]
 
+MAINT = dict(engine="maint", scale_quick=2, scale_thorough=20, timeout_quick=900, timeout_thorough=6000)
+MAINT_RULE = ("maint engine: the seq engine restricted to one index action per operation (no bulk/refresh/InvalidateAll), size- or weight-bounded and/or "
+              "expiring caches with maxima <= 12 so that the hill climber's floating-point step is zero, 4-8 keys; the hook at the start of cache.maintenance marks "
+              "every maintenance run; the extracted Maint/Policy/Wheel/Sketch model replays tasks, read buffer, sweeps and evictions in a closed loop (no oracle "
+              "input except key hashes and the window/protected maxima) and is compared after every operation on all deques, counters, wheel buckets and node states; "
+              "every automatic removal must be predicted exactly; C04/C05/C13 view oracles are evaluated on the implementation at every quiescent point")
+MAINT_ASSUME = ["single goroutine; the read buffer is one ring (no contention)", "maxima <= 12: hill-climber adjustment is 0 (floating point not modelled)",
+                "window / protected maxima are read from the implementation after SetMaximum (floating point)"]
+
 PROPS = {
+    "C04": dict(engines=[MAINT, SEQ], rule=MAINT_RULE, assumptions=MAINT_ASSUME),
+    "C05": dict(engines=[MAINT], rule=MAINT_RULE, assumptions=MAINT_ASSUME),
+    "C06": dict(engines=[SEQ, MAINT], rule=SEQ_RULE + "; OnDeletion vs OnAtomicDeletion multisets compared at quiescence of every case", assumptions=SEQ_ASSUME),
+    "C07": dict(engines=[MAINT, SEQ], rule=MAINT_RULE + "; in both engines every Overflow removal is checked against the model's total weight and the current maximum", assumptions=MAINT_ASSUME),
+    "C13": dict(engines=[MAINT], rule=MAINT_RULE + "; clock steps include sub-tick, one tick +-1, whole revolutions of every level and 2^52 ns", assumptions=MAINT_ASSUME),
+    "C19": dict(engines=[SEQ], rule=SEQ_RULE + "; at the end of every case the cache is saved, the clock moved (0, 1 ns, exactly the first deadline, just before it, beyond) and loaded into a fresh cache of the same configuration with the same / a larger / a smaller maximum", assumptions=SEQ_ASSUME + ["gob is the identity on Entry"]),
     "C01": dict(engines=[SEQ], rule=SEQ_RULE, assumptions=SEQ_ASSUME),
     "C03": dict(engines=[SEQ], rule=SEQ_RULE + "; the evidence's model_replay_stats.on_expired_* count operations applied to an expired-but-unswept key",
                 assumptions=SEQ_ASSUME),
